@@ -640,8 +640,13 @@ class Node:
                         f"Node.data already exists in parent: {n}"
                     )
             n = None
-            for n in topnodes:
-                self.add_child(n, before=before, deep=deep)
+            # Create the top copies first, then their descendants: `self` may be
+            # located inside one of the copied branches
+            copies = [
+                (self.add_child(n, before=before, deep=False), n) for n in topnodes
+            ]
+            if deep:
+                self._add_from_pairs(copies)
             return n  # need to return a node
 
         # Validate `before` first: creating the node already registers it
@@ -708,7 +713,7 @@ class Node:
             children.append(node)
 
         if deep and source_node:
-            node._add_from(source_node)
+            node._add_from(source_node, _skip=(node,))
 
         return node
 
@@ -968,16 +973,39 @@ class Node:
                 raise UniqueConstraintError(
                     f"Node.data already exists in parent: {child}"
                 )
-        res = None
-        for child in self.children:
-            n = target.add_child(child, before=None, deep=deep)
-            res = res or n  # Return the first new node
-        return res  # type: ignore
+        # Create the top copies first, then their descendants: `target` may be
+        # located inside one of the copied branches
+        copies = [
+            (target.add_child(child, before=None, deep=False), child)
+            for child in self.children
+        ]
+        if deep:
+            self._add_from_pairs(copies)
+        return copies[0][0]  # Return the first new node
+
+    @staticmethod
+    def _add_from_pairs(copies: list[tuple[Node, Node]]) -> None:
+        """Add the descendants to shallow `(copy, source)` pairs.
+
+        The new copies are not part of what is copied, even if they were created
+        inside a source branch.
+        """
+        skip = tuple(copy for copy, _source in copies)
+        for copy, source in copies:
+            copy._add_from(source, _skip=skip)
 
     def _add_from(
-        self, other: Node, *, predicate: Optional[PredicateCallbackType] = None
+        self,
+        other: Node,
+        *,
+        predicate: Optional[PredicateCallbackType] = None,
+        _skip: tuple = (),
     ) -> None:
         """Append copies of all source descendants to self.
+
+        `_skip` lists nodes (compared by identity) that are ignored while
+        walking the source: copies that were just created inside the source
+        branch itself.
 
         See also :ref:`iteration-callbacks`.
         """
@@ -985,11 +1013,13 @@ class Node:
             return self._add_filtered(other, predicate)
 
         assert not self._children
-        for child in other.children:
+        for child in list(other.children):
+            if any(child is s for s in _skip):
+                continue
             new_child = self.add_child(child.data, data_id=child._data_id)
             if child.children:
                 # if child.has_children():
-                new_child._add_from(child, predicate=None)
+                new_child._add_from(child, predicate=None, _skip=_skip)
         return
 
     def _add_filtered(self, other: Node, predicate: PredicateCallbackType) -> None:
